@@ -73,6 +73,7 @@ type DS struct {
 
 	mu        sync.Mutex
 	reqOps    map[string]int
+	openSigs  map[string]int
 	OpenIters atomic.Int64
 	Opened    atomic.Int64
 	Stopped   atomic.Int64
@@ -221,6 +222,20 @@ func (d *DS) enter(ctx context.Context, op, store, sig string, isWrite bool) (Op
 	return info, nil
 }
 
+// OpenIterSigs lists the operations whose iterators are still open ("ReadUsersetTuples:2,...").
+func (d *DS) OpenIterSigs() string {
+	d.mu.Lock()
+	defer d.mu.Unlock()
+	var parts []string
+	for k, v := range d.openSigs {
+		if v != 0 {
+			parts = append(parts, fmt.Sprintf("%s:%d", k, v))
+		}
+	}
+	sort.Strings(parts)
+	return strings.Join(parts, ",")
+}
+
 func (d *DS) panicAllowedHere() bool {
 	if len(d.cfg.PanicOnlyIn) == 0 {
 		return true
@@ -254,6 +269,12 @@ func (d *DS) wrapIter(ctx context.Context, info OpInfo, it storage.TupleIterator
 	d.OpenIters.Add(1)
 	d.Opened.Add(1)
 	w := &simIter{d: d, inner: it, info: info}
+	d.mu.Lock()
+	if d.openSigs == nil {
+		d.openSigs = map[string]int{}
+	}
+	d.openSigs[info.Op]++
+	d.mu.Unlock()
 	if d.BoundIterators {
 		d.mu.Lock()
 		w.openCtx = d.roots[info.Req]
@@ -337,6 +358,9 @@ func (s *simIter) Stop() {
 	if s.stopped.CompareAndSwap(false, true) {
 		s.d.OpenIters.Add(-1)
 		s.d.Stopped.Add(1)
+		s.d.mu.Lock()
+		s.d.openSigs[s.info.Op]--
+		s.d.mu.Unlock()
 	}
 	s.inner.Stop()
 }
